@@ -838,6 +838,9 @@ class UnionConverter(JsonConverter[T, np.object_]):
         else:
             assert isinstance(json_object, dict)
             tag, inner_json_object = next(iter(json_object.items()))
+            if tag == "null" and inner_json_object is None and self._cases[0] is None:
+                # Other writers represent the null case as {"null": null}
+                return None  # type: ignore
             case = self._cases[self.tag_to_case_index[tag]]
             return case[0](case[1].from_json(inner_json_object))  # type: ignore
 
